@@ -802,6 +802,13 @@ def C17(run):
     broken = lean_gate(run, THEOREMS['C17'])
     if not broken:
         broken = broken + translator_gate(run)
+    if not broken:
+        from props import gen_gate
+        broken = broken + gen_gate(run, 'translator_getopt', 'gen_getopt', 'tables',
+                                   'Gen.{getoptLayers,recordLayers,overridesMerge,unusedUnion,unusedExcluded,unusedMinus,setoptOrder} = C17.* by rfl; '
+                                   'getopt_is_program, getopt_program_precedence, overrides_is_program, unused_is_program, setopt_is_program (lean/Props/C17Getopt.lean)',
+                                   'Options.getopt / record / overrides / unused / setopt of droop/options.py are no longer of the layered form, or no longer in '
+                                   'the layer order, that lean/Props/C17Getopt.lean proves the model to evaluate')
     rng = rng_for(run)
     cases = [gen_layers(rng) for _ in range(budget(run, 12000, 200000))]
     impl = common.pmap(opts_impl, cases, limit=10.0, chunksize=100)
